@@ -29,6 +29,7 @@ from mashumaro.core.meta.helpers import (
     is_final,
     is_generic,
     is_literal,
+    literal_repr,
     is_named_tuple,
     is_new_type,
     is_not_required,
@@ -434,8 +435,9 @@ def pack_literal(spec: ValueSpec) -> Expression:
                 (int, str, bytes, bool, NoneType),  # type: ignore
             ):
                 with lines.indent(
-                    f"if value.__class__ is ({literal_value!r}).__class__ "
-                    f"and value == {literal_value!r}:"
+                    "if value.__class__ is "
+                    f"({literal_repr(literal_value)}).__class__ "
+                    f"and value == {literal_repr(literal_value)}:"
                 ):
                     lines.append(f"return {packer}")
         field_type = spec.builder.get_type_name_identifier(
